@@ -510,8 +510,10 @@ fn bid128_from_string_clear_status(str: &str, rnd_mode: RoundingMode, pfpsf: &mu
             res.w[0] = 0;
         }
         if ndigits_total == 0 {
-            CX.w[0] = 0;
-            CX.w[1] = 0;
+            // a zero literal is an exact zero whatever its exponent: clamp the exponent into range
+            res.w[1] = sign_x | ((dec_expon.clamp(0, DECIMAL_MAX_EXPON_128) as BID_UINT64) << 49);
+            res.w[0] = 0;
+            return res;
         } else if ndigits_total <= 19 {
             coeff_high = ((buffer[0] as i32) - ('0' as i32)) as BID_UINT64;
             for c in &buffer[1..ndigits_total] {
